@@ -25,15 +25,28 @@ def dim_name(d):
     return NAMES[d - 1]
 
 
+def coord_rank(case, d, i):
+    """data refinement: the coordinate values of a (mappable) dim are stored ascending, descending or rotated
+    (a concatenated sweep) depending on the case; index i (the spec's coordinate) -> rank of its value"""
+    s = case["sizes"][d - 1]
+    h = (int(case.get("num", 0)) + 3 * int(case.get("anum", 0)) + 5 * d) % 3
+    if s < 2 or h == 0:
+        return i
+    if h == 1:
+        return s + 1 - i            # descending
+    return i % s + 1                # 2, 3, .., s, 1
+
+
 def coord_label(case, d, i):
-    """label of index i (1-based) of dim d; x / y dims of lines and heat maps are evenly spaced floats"""
+    """label (coordinate value) of index i (1-based) of dim d; the x / y dims of lines and heat maps are evenly
+    spaced ascending floats, the other dims ints whose stored order varies with the case (coord_rank)"""
     n = len(case["sizes"])
     mode = case["mode"]
     if mode != "hist" and d == n:
         return 10.0 * i
     if mode == "heat" and d == n - 1:
         return 1.0 * i
-    return 100 * d + 10 * i
+    return 100 * d + 10 * coord_rank(case, d, i)
 
 
 def target_name(t):
@@ -137,8 +150,8 @@ def build_call(case):
             kw["bins"] = 4
         elif b == "nN":
             kw["bins"] = ncells
-        elif b in ("e1", "e3"):
-            kw["bins"] = [(hb["e0"] + k * hb["w"]) / hb["den"] for k in range(hb["nb"] + 1)]
+        elif b in ("e1", "e3", "eu"):
+            kw["bins"] = [(hb["e0"] + k * hb["w"] + hb.get("q", 0) * k * (k + 1)) / hb["den"] for k in range(hb["nb"] + 1)]
         kw["bins_density"] = bool(case["dens"])
         if case["pal"]:
             kw["palette"] = "viridis"
